@@ -238,3 +238,20 @@ C(f"{F}:next_psuedo_matches", params=ST, returns="opt[Tok]",
            f" and {TOP}.parenlevel == state.parenlev and {TOP}.text == '' and {TOP}.start == (state.lnum, state.pos))",
            ],
   modifies=SCAN_MOD + ["state.end_progs.top"], raises=["TokenError"], properties=["C03", "C08", "C10"])
+
+
+# ---------------------------------------------------------------------------------------------- TokenInfo helpers
+# The executor has these five methods built in (pyexec.tok_method) wherever OTHER functions call them; here their real bodies are verified to
+# say exactly what the built-in model says, so the model is not an assumption.
+TI = {"self": "Tok"}
+C(f"{F}:TokenInfo.is_exact_type", params={**TI, "typ": "str"}, returns="bool", ensures=["result == (self.type == Token.OP and self.string == typ)"],
+  raises=[], pure=True, properties=["C04", "C06", "C07"])
+C(f"{F}:TokenInfo.loc_start", params=TI, ensures=["keys_are(result, 'lineno', 'col_offset')", "result['lineno'] == self.start[0] and result['col_offset'] == self.start[1]"],
+  raises=[], pure=True, properties=["C04"])
+C(f"{F}:TokenInfo.loc_end", params=TI, ensures=["keys_are(result, 'end_lineno', 'end_col_offset')", "result['end_lineno'] == self.end[0] and result['end_col_offset'] == self.end[1]"],
+  raises=[], pure=True, properties=["C04"])
+C(f"{F}:TokenInfo.loc", params=TI, ensures=["keys_are(result, 'lineno', 'col_offset', 'end_lineno', 'end_col_offset')",
+                                            "result['lineno'] == self.start[0] and result['col_offset'] == self.start[1]",
+                                            "result['end_lineno'] == self.end[0] and result['end_col_offset'] == self.end[1]"],
+  raises=[], pure=True, properties=["C04"])
+C(f"{F}:TokenInfo.is_next_to", params={**TI, "prev": "Tok"}, returns="bool", ensures=["result == (prev.end == self.start)"], raises=[], pure=True, properties=["C06"])
